@@ -67,3 +67,24 @@ package server
 //@   nosafety all pre
 //@   assert at call (*server.slabCache[server.udpJob]).put#1: arg2 == j && j.txLen == 0 && j.rxLen == 0 && j.pktinfoLen == 0 && !j.written && !j.replay && j.state == udpJobFree
 //@   assert at call (*sync/atomic.Int64).Add#1: arg1 == -1 && calls("(*server.slabCache[server.udpJob]).put") == 1
+//@
+//@ # ---- C10 / C11: every served UDP job ends in exactly one hand-over: to the send burst when (and only when) a reply
+//@ # is staged, otherwise straight back to the ring — also after a panic outside the chain
+//@ func (*udpEngine).serve$1
+//@   abstract
+//@   nosafety all pre
+//@   assert at call (*server.udpTXBurst).add#1: j.txLen > 0 && j.burst == nil && arg1 == j
+//@   assert at call (*server.udpJob).release#1: j.txLen <= 0 && j.burst == nil && arg0 == j && arg1 == udpJobServing
+//@   assert at return: calls("(*server.udpTXBurst).add") + calls("(*server.udpJob).release") == 1
+//@
+//@ # one job, at most one terminal action: a header the acceptance rules refuse is rejected in place or dropped without
+//@ # entering the pipeline; an accepted one enters the pipeline exactly once (replay or first pass, never both)
+//@ func (*udpEngine).serve
+//@   abstract
+//@   nosafety all pre
+//@   assert at call (*server.udpJob).transition#1: arg0 == j && arg1 == udpJobQueued && arg2 == udpJobServing
+//@   assert at call (*server.udpJob).rejectInPlace#1: arg1 == lastret("server.acceptHeader") && (arg1 == acceptNotImplemented || arg1 == acceptFormatError) && calls("(server.rawHandler).ServeRaw") == 0
+//@   assert at call (server.inlineRawHandler).ServeRawReplay#1: lastret("server.acceptHeader") == acceptOK && lastret("internal/wire.ParseHeader", 1) && dyntype(arg1, *udpJob) && as(arg1, *udpJob) == j && calls("(server.rawHandler).ServeRaw") == 0
+//@   assert at call (server.rawHandler).ServeRaw#1: lastret("server.acceptHeader") == acceptOK && lastret("internal/wire.ParseHeader", 1) && dyntype(arg1, *udpJob) && as(arg1, *udpJob) == j && calls("(server.inlineRawHandler).ServeRawReplay") == 0
+//@   assert at call (*server.udpJob).rejectInPlace#2: arg1 == acceptFormatError && !lastret("(server.inlineRawHandler).ServeRawReplay")
+//@   assert at call (*server.udpJob).rejectInPlace#3: arg1 == acceptFormatError && !lastret("(server.rawHandler).ServeRaw")
